@@ -13,7 +13,7 @@ tfd = tfp.distributions
 
 LEVEL = "translation_validation"
 BOUNDS = {"distributions": "44 of the 46 exported TFP wrappers (beta_quotient and skellam are outside the claim), one parameter template each in the valid domain (scalars, or length-2/3 vectors for the multivariate ones); parameters and the value are symbolic around the template shapes",
-          "operations": "assess, importance(full) weight+score, update(v->v') weight, simulate score vs log_prob of the sampled value, keyword vs positional invocation, sample dtype"}
+          "operations": "assess, importance(full) weight+score, update(v->v') weight, update with a flag-masked constraint and changed parameters, simulate score vs log_prob of the sampled value, keyword vs positional invocation, sample dtype"}
 ASSUMPTIONS = ["both sides trace the same TFP log_prob code, so special functions (lgamma, bessel, cholesky, ...) are the same uninterpreted symbols on both sides; what is decided is GenJAX's wrapper (summing, kwargs path, implicit-logit wrapper, masks)",
                "TFP samplers that cannot be encoded (rejection loops) are uninterpreted functions of (key, parameters)"]
 TOO_LARGE = {"beta_quotient", "skellam"}  # log_prob is a numerical quadrature: 328 000 jaxpr equations encoded in 270 s, z3 'unknown' after 60 s
@@ -138,6 +138,18 @@ def obligations(tier, seed):
 
         obs.append(Ob(f"C24/density/{nm}", dens, (gfi.KEY, params, v, v2), assume=A, selfcheck=(nm not in ("mv_normal",)), timeout_s=20,
                       note="assess / importance / update scores and weights == summed tfd log_prob of the value"))
+
+        def mupd(key, p, p2, val, val2, flag, g=g, lp=lp, fix=fix):
+            p, val, val2 = fix(p, val, val2)
+            p2 = fix(p2, val, val2)[0]
+            tr, _ = g.importance(key, C.v(val), p)
+            tr2, w2, rd, bwd = tr.update(key, C.v(val2).mask(flag), Diff.unknown_change(p2))
+            new = jnp.where(flag, lp(val2, *p2), lp(val, *p2))
+            kept = jax.tree_util.tree_map(lambda a, b: jnp.where(flag, a, b), val2, val)
+            return (tr2.get_score(), w2, tr2.get_choices().get_value()), (new, new - lp(val, *p), kept)
+
+        obs.append(Ob(f"C24/masked-update/{nm}", mupd, (gfi.KEY, params, params, v, v2, jnp.array(True)), assume=lambda key, p, p2, *vals, A=A: A(key, p, *vals[:2]) + A(key, p2), selfcheck=False, timeout_s=20,
+                      note="update with a constraint masked by a traced flag and changed parameters: score == log_prob of the kept/new value under the NEW parameters, weight == new - old"))
 
         def sim(key, p, g=g, lp=lp, fix=fix):
             p = fix(p, None)[0]
